@@ -576,10 +576,15 @@ class Execution:
         blocking = ("threading.py", "queue.py", "selectors.py", "ipc.py", "thread.py", "_base.py")
         threads = re.split(r"\n(?=Thread |Current thread )", a)
         all_blocked = True
+        import linecache
+
         for th in threads:
-            m = re.search(r'File "([^"]+)", line \d+ in (\w+)', th)
-            if m and not m.group(1).endswith(blocking) and m.group(2) not in ("_timer_loop", "_collect_checkpoint_batch"):
-                all_blocked = False
+            m = re.search(r'File "([^"]+)", line (\d+) in (\w+)', th)
+            if m and not m.group(1).endswith(blocking) and m.group(3) not in ("_timer_loop", "_collect_checkpoint_batch"):
+                # a thread waiting for a lock has no frame inside threading.py: its top frame is the acquiring statement itself
+                src = linecache.getline(m.group(1), int(m.group(2)))
+                if not re.search(r"^\s*with\s+\S*(lock|mutex|cond|sem)\w*\s*:|\.(acquire|wait|join|result)\(", src, re.I):
+                    all_blocked = False
         if norm(a) == norm(b) and all_blocked:
             return "hang", a[:6000] + "\n" + extra[:6000]
         return "inconclusive", a[:3000]
